@@ -23,7 +23,9 @@ FLOORS = {"quick": {"steps_disconnected": 5000, "steps_connected": 1500, "availa
 EXHAUSTIVE = {"quick": True, "thorough": True}
 
 OPS = ["shell", "exec_out", "streaming_shell", "root", "reboot", "list", "stat", "pull", "push"]
-ALPHABET = ["connect-ok", "connect-pubkey", "connect-refused", "connect-nokeys", "connect-silent", "close"] + OPS + ["list-empty", "stat-empty", "pull-empty", "push-empty"] + ["push-dir", "stream-create", "stream-next"]
+ALPHABET = (["connect-ok", "connect-pubkey", "connect-refused", "connect-nokeys", "connect-silent", "close"] + OPS + ["list-empty", "stat-empty", "pull-empty", "push-empty"]
+            + ["push-dir", "stream-create", "stream-next"] + ["connect-keytimeout", "pull-bytesio", "push-bytesio"])
+CONNECT_FAILS = ["connect-refused", "connect-nokeys", "connect-silent", "connect-keytimeout"]
 
 
 def gen_cases(tier, seed):
@@ -36,6 +38,11 @@ def gen_cases(tier, seed):
     directed = [["connect-ok", "stream-create", "close", "stream-next"], ["connect-ok", "stream-create", "connect-refused", "stream-next"],
                 ["connect-ok", "stream-create", "connect-silent", "stream-next"], ["connect-ok", "stream-create", "close", "connect-ok", "stream-next"],
                 ["connect-ok", "close", "push-dir"], ["connect-ok", "connect-nokeys", "push-dir", "pull"], ["connect-pubkey", "push-dir", "close", "push-dir"]]
+    # every operation repeated right after the connection it succeeded on went away (state an operation keeps must not outlive the connection)
+    for op in OPS + ["push-dir", "pull-bytesio", "push-bytesio"]:
+        for gone in ["close"] + CONNECT_FAILS:
+            directed.append(["connect-ok", op, gone, op])
+            directed.append(["connect-pubkey", op, op, gone, op, "connect-ok", op])
     for impl in ("sync", "async"):
         for d in directed:
             yield {"kind": "directed", "impl": impl, "seq": [A[x] for x in d]}
@@ -111,6 +118,11 @@ def run_sequence(impl, seq, stats, tmp):
                     sim.auth = simdev.AuthPlan(require=True)
                 elif name == "connect-silent":
                     sim.silent = True
+                elif name == "connect-keytimeout":
+                    # every signature is rejected, the public key is offered and nobody confirms it before auth_timeout_s
+                    sim.auth = simdev.AuthPlan(require=True, accept_pubkey=False)
+                    kw["rsa_keys"] = [StubSigner()]
+                    kw["auth_timeout_s"] = 2.0
                 elif name == "connect-pubkey":
                     sim.auth = simdev.AuthPlan(require=True, accept_pubkey=True)
                     kw["rsa_keys"] = [StubSigner()]
@@ -189,7 +201,8 @@ def run_sequence(impl, seq, stats, tmp):
             else:
                 op, _, empty = name.partition("-")
                 isdir = empty == "dir"
-                if isdir:
+                bio = empty == "bytesio"
+                if isdir or bio:
                     empty = ""
                 if isdir and model:
                     # connected: a directory push works (two small files)
@@ -209,7 +222,9 @@ def run_sequence(impl, seq, stats, tmp):
                     elif op in ("list", "stat"):
                         out = sess.call(op, path)
                     elif op == "pull":
-                        out = sess.call(op, path, os.path.join(tmp, "must-not-exist-%d" % i))
+                        out = sess.call(op, path, io.BytesIO() if bio else os.path.join(tmp, "must-not-exist-%d" % i))
+                    elif op == "push" and bio:
+                        out = sess.call(op, io.BytesIO(b"xyz"), path)
                     else:
                         src = os.path.join(tmp, "srcdir" if isdir else "src")
                         out = sess.call(op, src, "/ddir" if isdir else path)
@@ -232,7 +247,10 @@ def run_sequence(impl, seq, stats, tmp):
                             if f not in ("src", "srcdir"):
                                 os.unlink(os.path.join(tmp, f))
                 else:
-                    out, v = runner.run_step(i, dict(STEP_SPECS[op]))
+                    spec = dict(STEP_SPECS[op])
+                    if bio:
+                        spec["dest" if op == "pull" else "src"] = "bytesio"
+                    out, v = runner.run_step(i, spec)
                     stats["steps_connected"] += 1
                     for x in v:
                         viol.append({"mechanism": "connected-op:" + x["mechanism"], "detail": "%s: %s" % (where, x["detail"])})
